@@ -3,6 +3,6 @@
 cd "$(dirname "$0")"
 export GOFLAGS=-mod=mod GOPROXY=off GOSUMDB=off GOTOOLCHAIN=local CGO_ENABLED=1
 mkdir -p harness/bin evidence
-(cd harness && go build -tags verif -o bin/vcheck ./cmd/vcheck) || exit 1
-(cd harness && go build -race -tags verif -o bin/vcheck-race ./cmd/vcheck) || exit 1
+(cd harness && go build -tags verif ./... ) || exit 1
+(cd harness && go build -race -tags verif ./core/ ./corpus/ ) || exit 1
 exit 0
